@@ -162,7 +162,7 @@ fn setup(seed: u64, victim_is_server: bool, vt: &TcfgP, victim_app: AppCfg) -> O
 }
 
 fn settle(w: &mut World) {
-    for _ in 0..600 {
+    for _ in 0..20_000 {
         w.flush_now();
         let horizon = w.now + 1_000_000_000;
         let busy = !w.net.q.is_empty()
@@ -247,7 +247,7 @@ fn case(seed: u64, trace: bool) -> CaseOut {
         }
         let a0 = adv(&s.w, s.attacker);
         // choose a probe; values sit at limit-1 / limit / limit+1 of the rule it targets
-        let kind = r.below(7);
+        let kind = r.below(8);
         let bidi = r.bool();
         let lim_streams = if bidi { a0.bidi } else { a0.uni };
         let mut idx = if lim_streams == 0 { 0 } else { r.below(lim_streams) };
@@ -286,6 +286,17 @@ fn case(seed: u64, trace: bool) -> CaseOut {
                 payload_fill(key, off, &mut data);
                 let e = m.stream_like(a, id, end, fin, false, victim_reads);
                 (Frame::Stream { id, off, fin, data, explicit_len: true, explicit_off: true }, e, 2)
+            }
+            7 => {
+                // a full-size frame (and, below, the same frame many times over)
+                let room_conn = a.conn.saturating_sub(m.total);
+                let len = 1100u64.min(a.stream.saturating_sub(hi)).min(room_conn);
+                let off = hi;
+                let key = s.w.led.flow(s.pair, writer_client, id).key;
+                let mut data = vec![0u8; len as usize];
+                payload_fill(key, off, &mut data);
+                let e = m.stream_like(a, id, off + len, false, false, victim_reads);
+                (Frame::Stream { id, off, fin: false, data, explicit_len: true, explicit_off: true }, e, 2)
             }
             3 | 4 => {
                 // final size consistency
@@ -361,8 +372,19 @@ fn case(seed: u64, trace: bool) -> CaseOut {
         script.push(format!("{frame:?} adv={a:?} => {expect:?}"));
         let mut bytes = vec![];
         frame.encode(&mut bytes);
-        s.w.eps[ae].conns.get_mut(&ach).unwrap().c.verif_inject_frames(space, bytes);
+        s.w.eps[ae].conns.get_mut(&ach).unwrap().c.verif_inject_frames(space, bytes.clone());
         settle(&mut s.w);
+        if kind == 7 && will_accept && bytes.len() > 600 && s.w.eps[ve].conns[&vch].app.lost.is_empty() {
+            // retransmission storm: the same frame again and again consumes no credit at all;
+            // what the victim holds must stay bounded all the same
+            let copies = 20 + r.below(180);
+            for _ in 0..copies {
+                s.w.eps[ae].conns.get_mut(&ach).unwrap().c.verif_inject_frames(space, bytes.clone());
+            }
+            script.push(format!("(the same frame {copies} more times)"));
+            out.cnt.inc("c06.duplicate_storms");
+            settle(&mut s.w);
+        }
         out.cnt.inc("c06.probes");
         let lost = s.w.eps[ve].conns[&vch].app.lost.clone();
         let alost = s.w.eps[ae].conns[&ach].app.lost.clone();
@@ -411,7 +433,8 @@ fn case(seed: u64, trace: bool) -> CaseOut {
         // bounds per stream by max(32 KiB, 1.5 x unread) before it defragments
         let streams = a1.bidi + a1.uni;
         let unique = rwnd_max.min(vt.stream_rwnd.saturating_mul(streams));
-        let bound = unique.saturating_add(unique / 2 * 3 + 2).saturating_add(32768 * streams);
+        let used_streams = (m.hi.len() as u64).max(1);
+        let bound = unique.saturating_add(unique / 2 * 3 + 2).saturating_add(32768 * used_streams);
         if p.streams.recv_allocated as u64 > bound || p.streams.recv_buffered > p.streams.recv_allocated {
             violations.push(format!("victim holds {} bytes ({} allocated) of unread stream data, its windows allow {unique} unique bytes and {bound} with reassembly slack", p.streams.recv_buffered, p.streams.recv_allocated));
         }
@@ -539,6 +562,7 @@ pub fn run(ctx: &Ctx) -> i32 {
                 "c06.buffer_checks",
                 "c06.credit_bound_checks",
                 "c06.victim_stops",
+                "c06.duplicate_storms",
                 "c06.delivery_checks",
                 "c06.credit_checks",
             ],
